@@ -183,6 +183,10 @@ func BuildRoot(w *World, root string, lib *OpLib) {
 		// the Eden vesting schedule allows one concurrent vesting per account and the provider reward
 		// account already holds it: the next provider-vesting epoch start meets "exceed max vestings"
 		prefix = []string{"perp_open_long_t1", "perp_open_short_t2", "llp_open_t1_x3", "swap_in_p1_usdc_atom_L", "swap_in_p2_elys_usdc_L", "gap_1d", "mc_claim_lp1", "commit_eden_lp1", "vest_eden_lp1", "stake_elys_lp1", "cfg_vest_max1", "gap_40d"}
+	case "R12":
+		// R1 with pending tradeshield orders of TWO owners, spot and perpetual, created alternately (ids
+		// 1..2 each): removing an order that is not the newest, then creating one, is two ops away
+		prefix = []string{"perp_open_long_t1", "perp_open_short_t2", "llp_open_t1_x3", "swap_in_p1_usdc_atom_L", "swap_in_p2_elys_usdc_L", "gap_1d", "mc_claim_lp1", "commit_eden_lp1", "vest_eden_lp1", "stake_elys_lp1", "ts_spot_limitbuy_unmet_own1", "ts_spot_limitbuy_met_own2", "ts_perp_long_unmet_own1", "ts_perp_long_met_own2"}
 	case "R4":
 		// R1 with a large loan outstanding for 30 days under the default every-block sweep: the
 		// interest is booked, so the vault's redemption rate sits visibly above 1 (≈ 1.005)
